@@ -62,6 +62,20 @@ func (l labelChooser) Choose(label string, n int) int {
 	return 0
 }
 
+// labelChooserSeq answers the k-th occurrence of a named choice point with seq[k].
+type labelChooserSeq map[string][]int
+
+func (l labelChooserSeq) Choose(label string, n int) int {
+	if q := l[label]; len(q) > 0 {
+		v := q[0]
+		l[label] = q[1:]
+		if v < n {
+			return v
+		}
+	}
+	return 0
+}
+
 var gRegion *guard.Region
 
 func guardRegion() *guard.Region {
@@ -184,6 +198,50 @@ func checkC16(tier string) int {
 			}
 		}
 	}
+	// mixed modes and refused requests on ONE client: every ordered pair of setters x both modes each x the
+	// kernel's verdict on each in {0, EPERM, EINVAL}: whatever the earlier call's mode and fate (an unread
+	// NoWait acknowledgement carrying an errno included), EVERY call puts exactly one well-formed AUDIT_SET
+	// request on the wire
+	type fixedVerdicts struct {
+		v []int
+		i int
+	}
+	for _, a := range setters() {
+		for _, b := range setters() {
+			for _, ma := range []libaudit.WaitMode{libaudit.WaitForReply, libaudit.NoWait} {
+				for _, mb := range []libaudit.WaitMode{libaudit.WaitForReply, libaudit.NoWait} {
+					for _, va := range []int{0, 1, 2} {
+						for _, vb := range []int{0, 1} {
+							sim := ksim.New(labelChooserSeq{"verdict(type=1001)": []int{va, vb}})
+							sim.NoDeviations = true
+							sim.Verdicts = []int{0, 1, 22}
+							c := &libaudit.AuditClient{Netlink: sim}
+							for i, st := range []setter{a, b} {
+								mode := []libaudit.WaitMode{ma, mb}[i]
+								before := len(sim.Sends)
+								_ = st.call(c, 0x5A5A5A5A, mode)
+								evals++
+								if len(sim.Sends) != before+1 {
+									rep("setter-request-count-after-history:"+st.name, "call %d of [%s(mode %d, kernel verdict index %d), %s(mode %d, verdict index %d)] on one client sent %d requests, want exactly 1", i+1, a.name, ma, va, b.name, mb, vb, len(sim.Sends)-before)
+									break
+								}
+								s := sim.Sends[before]
+								want := make([]byte, sizeofStatus)
+								binary.LittleEndian.PutUint32(want[offMask:], st.mask)
+								binary.LittleEndian.PutUint32(want[st.off:], st.val(0x5A5A5A5A))
+								if s.Type != uapiAuditSet || s.Flags != syscall.NLM_F_REQUEST|syscall.NLM_F_ACK || string(s.Data) != string(want) {
+									rep("setter-payload-after-history:"+st.name, "call %d of [%s(mode %d), %s(mode %d)]: type %d flags %#x payload % x, want AUDIT_SET, 0x5, % x", i+1, a.name, ma, b.name, mb, s.Type, s.Flags, s.Data, want)
+									break
+								}
+								nontrivial++
+							}
+						}
+					}
+				}
+			}
+		}
+	}
+	_ = fixedVerdicts{}
 	// state carried between calls: every ordered triple of setters on ONE client
 	sts := setters()
 	for _, a := range sts {
@@ -341,6 +399,50 @@ func checkC16(tier string) int {
 			continue
 		}
 		nontrivial++
+	}
+	// every reply length 32..48 x every field the reply holds x every value 0..600 and every single bit,
+	// the other fields at a fixed pattern: the field comes back as sent, whatever its value and the layout
+	for L := 32; L <= 48; L++ {
+		for f := 0; 4*f+4 <= L && f < 11; f++ {
+			var vals []uint32
+			for v := uint32(0); v <= 600; v++ {
+				vals = append(vals, v)
+			}
+			for b := 0; b < 32; b++ {
+				vals = append(vals, 1<<b, ^uint32(1<<b))
+			}
+			for _, v := range vals {
+				raw := make([]byte, L)
+				for i := range raw {
+					raw[i] = byte(0x31 + i)
+				}
+				binary.LittleEndian.PutUint32(raw[4*f:], v)
+				sim := ksim.New(nil)
+				sim.NoDeviations = true
+				sim.StatusRaw = raw
+				c := &libaudit.AuditClient{Netlink: sim}
+				st, err := c.GetStatus()
+				evals++
+				if err != nil || st == nil {
+					rep("getstatus-reply-rejected", "GetStatus rejected a %d-byte reply with field %d = %d: %v", L, f, v, err)
+					break
+				}
+				got := [11]uint32{uint32(st.Mask), st.Enabled, st.Failure, st.PID, st.RateLimit, st.BacklogLimit, st.Lost, st.Backlog, st.FeatureBitmap, st.BacklogWaitTime, st.BacklogWaitTimeActual}
+				var want [11]uint32
+				for i := 0; i < 11; i++ {
+					var b4 [4]byte
+					if 4*i < L {
+						copy(b4[:], raw[4*i:])
+					}
+					want[i] = binary.LittleEndian.Uint32(b4[:])
+				}
+				if got != want {
+					rep("getstatus-field-value", "GetStatus on a %d-byte reply whose field %d is %d decoded %v, the kernel laid out %v", L, f, v, got, want)
+					break
+				}
+				nontrivial++
+			}
+		}
 	}
 	// state carried from a reply into later requests: GetStatus (reply of length L) then every
 	// setter on the SAME client, both wait modes: the request is still a full-size audit_status
